@@ -340,12 +340,22 @@ def replay_check_of(repo, notes):
         notes.append("continuities.rs: fn replay_events not found")
         ok = False
     else:
-        served = re.search(r"\bif\s+let\s+Ok\s*\(\s*Some\s*\(\s*(\w+)\s*\)\s*\)\s*=\s*self\s*\.\s*stream_cache\s*\.\s*try_replay\s*\(\s*continuity_id\s*\)\s*\{\s*return\s+Ok\s*\(\s*\1\s*\)\s*;\s*\}", b2)
-        fb = re.search(r"\bself\s*\.\s*event_log\s*\.\s*replay_stream\s*\(\s*StreamKind::Continuity\s*,\s*continuity_id\s*\)", b2)
-        if served and fb and fb.start() > served.end() and depth_in(b2, fb.start()) == 0:
+        served_rx = r"\bif\s+let\s+Ok\s*\(\s*Some\s*\(\s*(\w+)\s*\)\s*\)\s*=\s*self\s*\.\s*stream_cache\s*\.\s*try_replay\s*\(\s*continuity_id\s*\)\s*\{\s*return\s+Ok\s*\(\s*\1\s*\)\s*;\s*\}"
+        fb_rx = r"\bself\s*\.\s*event_log\s*\.\s*replay_stream\s*\(\s*StreamKind::Continuity\s*,\s*continuity_id\s*\)"
+
+        def served_then_log(b):
+            served, fb = re.search(served_rx, b), re.search(fb_rx, b)
+            return bool(served and fb and fb.start() > served.end() and depth_in(b, fb.start()) == 0)
+
+        # since the S3-live repair the log fallback runs under the seq mutex in `replay_events_locked` (sidecar tried once
+        # more, then the log): replay_events = served | lock; replay_events_locked(id)
+        served = re.search(served_rx, b2)
+        tail = re.search(r"\bself\s*\.\s*replay_events_locked\s*\(\s*continuity_id\s*\)\s*$", b2.strip())
+        b3 = fn_body(src2, "replay_events_locked")
+        if served_then_log(b2) or (served and tail and tail.start() > served.end() and b3 is not None and served_then_log(b3)):
             res["fallback_log"] = True
         else:
-            notes.append("replay_events: not `if let Ok(Some(x)) = self.stream_cache.try_replay(id) { return Ok(x); }` followed by `self.event_log.replay_stream(StreamKind::Continuity, id)`")
+            notes.append("replay_events: not `if let Ok(Some(x)) = self.stream_cache.try_replay(id) { return Ok(x); }` followed by `self.event_log.replay_stream(StreamKind::Continuity, id)` (directly, or as the same shape in replay_events_locked called last)")
     return res, ok
 
 
